@@ -106,6 +106,37 @@ def build(profile):
     return exe
 
 
+def record_suite(tag, test_args, min_files=1, timeout=1800):
+    """Code -> spec on traces this framework's drivers did not make: run tests of the REPOSITORY'S OWN suite (unedited,
+    from /repo's working tree) with the hooks compiled in (--cfg mla_verif, production constants) and the trace sink on
+    (MLA_VERIF_TRACE_DIR: one ndjson file per test thread / per `mlar` process).  Test results are not this framework's
+    matter (the suite is run as such by the baseline); only the recorded events are used.  Returns the trace directory."""
+    tdir = workdir(tag)
+    env = dict(os.environ)
+    for k in list(env):
+        if k.startswith("MLA_VERIF_"):
+            del env[k]
+    env.update(CARGO_NET_OFFLINE="true", MLA_VERIF_TRACE_DIR=tdir,
+               RUSTFLAGS="--cfg mla_verif --check-cfg cfg(mla_verif)")
+    cmd = ["cargo", "test", "--offline", "--no-fail-fast", "-j", "8", "--target-dir",
+           os.path.join(HARNESS, "target", "suite")] + test_args
+    t0 = time.time()
+    try:
+        p = subprocess.run(cmd, cwd=REPO, env=env, stdout=subprocess.PIPE, stderr=subprocess.STDOUT, text=True, timeout=timeout)
+    except subprocess.TimeoutExpired:
+        raise ToolError(f"the repository's tests did not finish in {timeout}s under the hooks ({' '.join(test_args)})")
+    if "error: could not compile" in p.stdout or "error[E" in p.stdout:
+        sys.stdout.write(p.stdout[-4000:])
+        raise ToolError("the repository's tests do not build with --cfg mla_verif")
+    nfiles = len([f for f in os.listdir(tdir) if f.endswith(".ndjson")])
+    ran = sum(int(m) for m in re.findall(r"test result: \w+\. (\d+) passed", p.stdout))
+    failed = re.findall(r"^test (\S+) \.\.\. FAILED", p.stdout, re.M)
+    log(f"[suite] {' '.join(test_args)}: {ran} tests passed, failed: {failed or 'none'}; {nfiles} trace files in {time.time() - t0:.1f}s")
+    if nfiles < min_files:
+        raise ToolError(f"suite traces: only {nfiles} trace files recorded (hooks off? tests renamed?)")
+    return tdir, dict(tests_passed=ran, tests_failed=failed, trace_files=nfiles)
+
+
 _mlar = {}
 
 
